@@ -2,6 +2,7 @@
 
 Implementation runner, structured generators, the direct oracle (every clause of the property restated
 naively on the real code) and the request builder for the Lean model (lean/Verif/C20)."""
+import contextlib
 import copy
 import functools
 import glob
@@ -13,8 +14,10 @@ import os
 import pathlib
 import re
 import shutil
+import sys
 import tempfile
 import warnings
+from unittest import mock
 
 from .common import paths, semgen, tables
 from .common.runner import Check
@@ -23,6 +26,7 @@ from . import integration
 paths.ensure_repo_on_path()
 import delphin.codecs  # noqa: E402
 from delphin import commands, tsdb, util  # noqa: E402
+from delphin.cli import convert as _cli  # noqa: E402
 from delphin import dmrs as _dmrs  # noqa: E402
 from delphin import eds as _eds  # noqa: E402
 from delphin import mrs as _mrs  # noqa: E402
@@ -638,10 +642,37 @@ def ace_texts(objs, layout):
     return singles, "".join(out)
 
 
+def ace_texts_mode(objs, layout, mode):
+    """the other two shapes of ACE output: mode 'lines' -- one reading per line and nothing else (source 'ace-lines',
+    read with decode()); mode 'tsdb' -- the --tsdb-stdout protocol, one line of S-expressions per sentence whose
+    (:results . (((:mrs . "...")) ...)) holds the readings.  No SENT: lines, so no surface string."""
+    sm = util.import_codec("simplemrs")
+    texts = [sm.encode(o, indent=None) for o in objs]
+    singles = ["NO-SENT\n" + t + _DERIV + "\n" for t in texts]
+    if mode == "lines":
+        return singles, "".join(t + _DERIV + "\n" for t in texts)
+    layout = ace_layout_default(len(objs)) if layout is None else layout
+    out, k = [], 0
+    for b in layout:
+        if b == "skip" or b == 0:
+            out.append('(:ninputs . 1) (:readings . 0) (:error . "no parse") (:results . ())\n')
+            continue
+        rs = []
+        for r in range(b):
+            rs.append('((:result-id . %d) (:derivation . "(1 a 0 1)") (:mrs . "%s"))'
+                      % (r, texts[k].replace("\\", "\\\\").replace('"', '\\"')))
+            k += 1
+        out.append('(:ninputs . 1) (:readings . %d) (:results . (%s)) (:total . 3)\n' % (b, " ".join(rs)))
+    assert k == len(objs)
+    return singles, "".join(out)
+
+
 def ace_reading_alone(single):
     """the oracle's own reading of a one-reading ACE text: the SimpleMRS before ' ;  ' with the sentence of the
     SENT: line as its surface string"""
     first, _, rest = single.partition("\n")
+    if first == "NO-SENT":
+        return read_string_or_file(util.import_codec("simplemrs"), rest.split(" ;  (")[0].strip(), True)
     assert first.startswith("SENT: ")
     m = read_string_or_file(util.import_codec("simplemrs"), rest.split(" ;  (")[0].strip(), True)
     m.surface = first[len("SENT: "):].rstrip()
@@ -777,12 +808,141 @@ def dir_layout(n):
     return rows
 
 
+# ---- the glue: which codec / converter / highlighter functions commands.convert calls, in which order, with which
+#      keyword arguments (model: lean/Verif/C20/Glue.lean)
+ANSI = re.compile(r"\x1b\[[0-9;]*m")
+GLUE_FLAGS = ("cells", "badline", "baddoc", "linesdir", "enccrash", "exportsrc")      # compared with the model only (outside the item space)
+CLI_INDENTS = [None, None, None, "bare", "no", "NONE", "None", "nO", "2", "0", "4", "+3", "1", "10"]
+
+
+def glue_only(case):
+    return any(case.get(f) is not None and case.get(f) is not False for f in GLUE_FLAGS)
+
+
+def naive_cli_indent(ci):
+    """what `delphin convert` passes as indent= for a spelling of --indent (None: option absent; 'bare': without value)"""
+    if ci is None:
+        return True
+    if ci == "bare":
+        return None
+    if ci.lower() in ("no", "none"):
+        return None
+    return int(ci)
+
+
+def set_cli(case, ci):
+    case["via"] = "cli"
+    case["cli_indent"] = ci
+    case["indent"] = naive_cli_indent(ci)
+    if case["input"] in ("pathobj",):
+        case["input"] = "path"
+    elif case["input"] in ("file", "stream"):
+        case["input"] = "stdin"
+    return case
+
+
+class Spy(object):
+    """records the outermost calls into the source codec (load / loads / decode), the converters, the target codec
+    (encode) and the highlighter while commands.convert runs; every call goes through to the real function"""
+
+    def __init__(self, src_mod, tgt_mod):
+        self.events = []
+        self.depth = 0
+        self.pre = None
+        self.src_mod, self.tgt_mod = src_mod, tgt_mod
+        self.stack = contextlib.ExitStack()
+
+    @staticmethod
+    def _kw(kw):
+        def v(x):
+            if x is None or isinstance(x, (bool, int)):
+                return x
+            if isinstance(x, str):
+                return "STR:" + x
+            return "SEMI" if type(x).__name__ == "SemI" else type(x).__name__
+        return sorted([k, v(x)] for k, x in kw.items())
+
+    @staticmethod
+    def _arg(a, name=""):
+        if hasattr(a, "read"):
+            return "stream"
+        if isinstance(a, pathlib.PurePath):
+            return "path"
+        if isinstance(a, str) or (a is None and name in ("load", "loads", "decode")):
+            return "text"          # (an empty profile cell arrives as None)
+        return "obj"
+
+    def _guard(self, it):
+        it = iter(it)
+        while True:
+            self.depth += 1
+            try:
+                x = next(it)
+            except StopIteration:
+                return
+            finally:
+                self.depth -= 1
+            yield x
+
+    def wrap(self, name, real, lazy=False):
+        spy = self
+
+        def w(*a, **kw):
+            top = spy.depth == 0
+            if top:
+                spy.events.append({"f": name, "a": spy._arg(a[0], name) if a else "none", "kw": spy._kw(kw)})
+            spy.depth += 1
+            try:
+                r = real(*a, **kw)
+            finally:
+                spy.depth -= 1
+            if lazy and top and hasattr(r, "__next__"):
+                return spy._guard(r)
+            return r
+        return w
+
+    def __enter__(self):
+        st = self.stack
+        for name in ("load", "loads", "decode"):
+            if self.src_mod is not None and hasattr(self.src_mod, name):
+                st.enter_context(mock.patch.object(self.src_mod, name, self.wrap(name, getattr(self.src_mod, name), lazy=(name != "decode"))))
+        if self.tgt_mod is not None and hasattr(self.tgt_mod, "encode"):
+            st.enter_context(mock.patch.object(self.tgt_mod, "encode", self.wrap("encode", self.tgt_mod.encode)))
+        for mod, fn in ((_dmrs, "from_mrs"), (_mrs, "from_dmrs"), (_eds, "from_mrs")):
+            st.enter_context(mock.patch.object(mod, fn, self.wrap("conv", getattr(mod, fn))))
+        real_mk = util.make_highlighter
+        spy = self
+
+        def mk(fmt):
+            real = real_mk(fmt)
+
+            def hl(text):
+                spy.events.append({"f": "highlight", "a": spy._arg(text), "kw": []})
+                spy.pre = text
+                return real(text)
+            return hl
+        st.enter_context(mock.patch.object(util, "make_highlighter", mk))
+        return self
+
+    def __exit__(self, *exc):
+        self.stack.close()
+        return False
+
+
+def real_codec_module(name):
+    try:
+        return importlib.import_module("delphin.codecs." + name)
+    except Exception:
+        return None
+
+
+
 class C20(Check):
     pid = "C20"
-    quick_cases = 600
+    quick_cases = 330
     thorough_cases = 6000
     # integration layer (composition theorems + their own correspondence run): harness/integration.py
-    props_modules = ["Verif.C20.Props", "Verif.Integration.Props", "Verif.Integration.Frame"]
+    props_modules = ["Verif.C20.Props", "Verif.C20.GlueProps", "Verif.Integration.Props", "Verif.Integration.Frame"]
     build_targets = props_modules + ["Verif.C20.Driver", "Verif.Integration.Driver"]
     rule = ("lists of 0-5 MRS/DMRS/EDS items (well-formed tree-built MRS with lnk, surface, constants over an "
             "alphabet of brackets, quotes, backslashes, commas and markup; tree-built DMRS; EDS graphs), every "
@@ -797,7 +957,11 @@ class C20(Check):
             "at a time (a leading item with k = 0..7 lnk tokens), for mrx/dmrx/mrsjson/dmrsjson/edsjson texts beyond "
             "16 and 64 KiB, long PENMAN and ACE sources, through path, Path, open file, stream and profile directory "
             "to same- and cross-representation targets with and without '-lines'; Indexed MRS with a harness-made "
-            "SEM-I as source and target. Non-trivial: at least one item; "
+            "SEM-I (object or .smi path) as source and target; through the Python API or the command line front end "
+            "(`delphin convert` with every spelling class of --indent, flags, PATH a file / a directory / absent = stdin); "
+            "path=None (stdin) for every source; color and show_status on and off; ICONS on a third of the MRS items; ACE "
+            "output also in the --tsdb-stdout protocol and as 'ace-lines'; same-format conversions for every codec; "
+            "`delphin convert --list`. Non-trivial: at least one item; "
             "distinct by JSON text.")
     assumptions = [
         "items are opaque texts in the model: that one item's encode/decode round-trips is C01-C03's claim; here only "
@@ -828,7 +992,15 @@ class C20(Check):
         "isolated by _iter_convert -- the whole call fails -- which is modelled (Outcome.convCrash, theorem "
         "crash_not_isolated) and compared on documents holding such an item; the implementation side of error isolation "
         "is exercised through encode failures (KeyError on a dangling link/edge)",
-        "color=True (pygments highlighting) and show_status are not exercised",
+        "the call sequence (load/loads/decode, converter, encode, highlighter with their keyword arguments) is recorded by "
+        "spies around the real functions during the call and compared with the model's event list (Glue.lean); kwargs are "
+        "compared as sorted lists, objects as kinds (stream/path/text/obj, the SEM-I as a tag)",
+        "compared with the model only, no oracle (outside the item space): profile cells holding several or no structures, "
+        "a blank line in a '-lines' source, an unreadable document, a '-lines' source given a directory, an export-only "
+        "source over an empty selection, an Indexed-MRS target without a SEM-I; there the exception class is not compared, "
+        "the point where the run stops is",
+        "color=True goes through real pygments: the oracle demands that highlighting adds only ANSI colour codes and one "
+        "final newline, exactly for a (normalised) simplemrs target; --color auto on a tty is not exercised",
     ]
     trusted_base = ["hand-written model lean/Verif/C20/Model.lean, tied to delphin.commands.convert by the correspondence run "
                     "(exact equality of the assembled text, of the reader's item list and of plan/error outcomes)",
@@ -983,6 +1155,14 @@ class C20(Check):
         def fresh():
             return gen(rng, tricky and not penman)
         items = [fresh() for _ in range(n)]
+        if rep == "mrs" and gen is not gen_indexed_item:
+            # individual constraints (ICONS) between intrinsic variables, on about a third of the MRS items
+            for it in items:
+                ivs = [a[1] for ep in it["rels"] for a in ep["args"] if a[0] == "ARG0" and a[1][0] in "ex"]
+                if len(ivs) >= 2 and rng.random() < 0.35:
+                    for _ in range(rng.choice([1, 1, 2])):
+                        a_, b_ = rng.sample(ivs, 2)
+                        it.setdefault("icons", []).append([a_, rng.choice(["topic", "focus", "info-str"]), b_])
         lk = over.pop("lnk_kind", None)
         kinds = lnk_kinds_of(src)
         if len(kinds) > 2 and tgt not in NO_KIND_TARGETS:
@@ -1006,11 +1186,16 @@ class C20(Check):
             "src_indent": rng.choice([None, 2]),
             "properties": rng.random() < 0.75, "lnk": rng.random() < 0.75,
             "predmod": rng.random() < 0.4,
-            "input": rng.choice(["path", "pathobj", "file", "stream"]) if (src_lines or src == "ace" or rng.random() < 0.7)
-            else "dir",
+            "input": rng.choice(["path", "pathobj", "file", "stream", "stdin"])
+            if (src_lines or src == "ace" or rng.random() < 0.7) else "dir",
             "select": rng.randrange(len(SELECTS)),
             "dup": dup or "none",
+            "color": rng.random() < 0.12,
+            "show_status": rng.random() < 0.3,
+            "via": "api", "cli_indent": None,
         }
+        want_cli = rng.random() < 0.3
+        ci = rng.choice(CLI_INDENTS)
         if src == "ace":
             case["ace_layout"] = gen_ace_layout(rng, len(items))
             if rng.random() < 0.6:
@@ -1019,6 +1204,9 @@ class C20(Check):
                     for ep in eps[:1] + [e for e in eps[1:] if e["carg"] is not None]:
                         ep["carg"] = rng.choice(ACE_CARGS)
         case.update(over)
+        if case["via"] == "cli" or (want_cli and "indent" not in over and "indexedmrs" not in (src, tgt)
+                                    and not glue_only(over)):
+            set_cli(case, case["cli_indent"] if "cli_indent" in over else ci)
         self.apply_sep(rng, case, sep)
         return case
 
@@ -1096,7 +1284,7 @@ class C20(Check):
             for nn in ((0, 2) if tier == "quick" else (0, 1, 3)):
                 k += 1
                 c = self.mk_case(rng, s, t, n=nn)
-                if k % 3 == 0:
+                if k % 3 == 0 and c["via"] != "cli":
                     c["indent"] = 2
                 yield c
         # --- targeted: every target x (indent, lines) with N = 0, 1, 2 from the plainest source of its representation
@@ -1172,7 +1360,8 @@ class C20(Check):
             for ln in (False, True):
                 kk += 1
                 yield self.mk_case(rng, "indexedmrs", t, n=2 + kk % 3, src="indexed-mrs", tgt=t + ("-lines" if ln else ""),
-                                   input=("path", "stream", "file", "pathobj", "dir")[kk % 5], indent=[None, 2][kk % 2])
+                                   input=("path", "stream", "file", "stdin", "pathobj", "dir", "stdin")[kk % 7],
+                                   indent=[None, 2][kk % 2])
         #   (d) profile fields that hold one-item documents of the XML / JSON formats
         for s in CHUNKED_SOURCES:
             for q in (0, 2, 3):
@@ -1252,7 +1441,143 @@ class C20(Check):
         for s, t in ISOLATION_PAIRS:
             for nn in (1, 3, 4):
                 yield self.isolation_case(rng, s, t, nn)
+        # --- the glue around the codecs: command line, stdin, colour, show_status, profile cells holding several or no
+        #     structures, unreadable lines / documents, encoder crashes (model: Glue.lean)
+        yield from self.glue_cases(rng, tier)
         yield from self.random_cases(rng, n)
+
+    def glue_cases(self, rng, tier):
+        kk = 0
+        plain = {"mrs": "simplemrs", "dmrs": "dmrsjson", "eds": "edsjson"}
+        # (1) `delphin convert`: every target x the spellings of --indent (absent = True, bare, no/none in any case,
+        #     numbers), PATH a file, a test-suite directory, or absent (stdin)
+        spell = [None, "bare", "no", "NONE", "2", "0", "+3", "10", "nOnE", "1"]
+        for t in TARGETS:
+            for j in range(2 if tier == "quick" else len(spell)):
+                kk += 1
+                s0 = plain[REP[t]]
+                yield self.mk_case(rng, s0, t, n=2 + kk % 2, via="cli", cli_indent=spell[kk % len(spell)],
+                                   input=("path", "dir", "stdin")[kk % 3], src=SPELLINGS[s0][0],
+                                   tgt=SPELLINGS[t][0] + ("-lines" if kk % 4 == 0 else ""), select=0, color=False)
+        # (2) path=None (stdin) for every source, plain and '-lines'
+        for s0 in SOURCES:
+            ts = [x for x in TARGETS if supported(s0, x)]
+            for ln in (False, True):
+                if s0 == "ace" and ln:
+                    continue
+                kk += 1
+                yield self.mk_case(rng, s0, ts[kk % len(ts)], n=2, input="stdin",
+                                   src=SPELLINGS[s0][0] + ("-lines" if ln else ""))
+        # (3) color=True: only a (normalised) simplemrs target is highlighted, whatever its spelling and '-lines'
+        for t, tn in (("simplemrs", "simplemrs"), ("simplemrs", "Simple-MRS"), ("simplemrs", "simplemrs-lines"),
+                      ("simplemrs", "SIMPLE-MRS-Lines"), ("mrsjson", "mrs-json"), ("simpledmrs", "simpledmrs"),
+                      ("eds", "eds"), ("mrx", "mrx-lines")):
+            for nn in (0, 1, 3):
+                kk += 1
+                over = dict(n=nn, color=True, tgt=tn, src="simplemrs", input=("path", "stream", "dir", "stdin")[kk % 4],
+                            select=0)
+                if kk % 3 == 0:
+                    over.update(via="cli", cli_indent=[None, "no", "2"][(kk // 3) % 3])
+                    if over["input"] == "stream":
+                        over["input"] = "stdin"
+                else:
+                    over.update(via="api", indent=[None, 2][kk % 2])
+                yield self.mk_case(rng, "simplemrs", t, **over)
+        # (4) show_status reaches the native EDS encoder (and only it), '-lines' included
+        for s0, tn in (("simplemrs", "eds"), ("edsjson", "eds"), ("eds", "eds-lines"), ("simplemrs", "EDS-Lines"),
+                       ("eds", "eds-json"), ("simplemrs", "eds-penman")):
+            for st in (True, False):
+                kk += 1
+                over = dict(n=3, show_status=st, src=SPELLINGS[s0][0], tgt=tn, dup="none")
+                if kk % 2:
+                    over.update(via="cli", cli_indent=[None, "bare", "2"][kk % 3], input=("path", "dir", "stdin")[kk % 3],
+                                select=0)
+                else:
+                    over.update(via="api", indent=[None, 2][(kk // 2) % 2])
+                c = self.mk_case(rng, s0, norm_name(tn)[0], **over)
+                if REP[s0] == "eds":
+                    for it in c["items"][::2]:       # a disconnected node, so that the status annotation shows
+                        it["nodes"][-1]["edges"] = []
+                yield c
+        # (5) profile cells holding several structures (only the first is used) or none (None reaches the encoder /
+        #     the reader raises on an empty cell): compared with the model only
+        for s0 in ("simplemrs", "mrsjson", "mrx", "dmrsjson", "simpledmrs", "eds", "edsjson", "dmrx"):
+            for cells in ([1, 2, 1], [2, 3], [1, 0, 1], [0], [1, 1, 0], [3]):
+                kk += 1
+                if tier == "quick" and kk % 2:
+                    continue
+                ts = [x for x in TARGETS if supported(s0, x)]
+                yield self.mk_case(rng, s0, ts[kk % len(ts)], n=sum(cells), dup="none", input="dir", select=0,
+                                   src=SPELLINGS[s0][0], cells=cells, via="api", src_indent=[None, 2][kk % 2])
+        # (6) an undecodable (blank) line in a '-lines' source: the lines before it have been converted and encoded
+        for s0 in ("simplemrs", "mrsjson", "mrx", "simpledmrs", "dmrsjson", "eds", "edsjson", "dmrspenman"):
+            for pos in (0, 1, 3):
+                kk += 1
+                if tier == "quick" and kk % 2:
+                    continue
+                ts = [x for x in TARGETS if supported(s0, x)]
+                yield self.mk_case(rng, s0, ts[kk % len(ts)], n=3, dup="none", src=SPELLINGS[s0][0] + "-lines",
+                                   input=("path", "stream", "stdin", "file", "pathobj")[kk % 5], badline=pos, via="api")
+        # (7) an unreadable document: nothing is converted
+        for s0 in ("simplemrs", "mrsjson", "mrx", "simpledmrs", "dmrsjson", "dmrx", "eds", "edsjson"):
+            kk += 1
+            ts = [x for x in TARGETS if supported(s0, x)]
+            yield self.mk_case(rng, s0, ts[kk % len(ts)], n=2, dup="none", src=SPELLINGS[s0][0],
+                               input=("path", "stream", "stdin", "file")[kk % 4], baddoc=True, via="api")
+        # (8) a '-lines' source given a directory; an export-only source over a query selecting nothing
+        for s0 in ("simplemrs", "dmrsjson", "eds"):
+            yield self.mk_case(rng, s0, s0, n=2, dup="none", src=s0 + "-lines", input="dir", select=0, linesdir=True,
+                               via="api")
+        yield self.mk_case(rng, "mrsprolog", "simplemrs", n=0, src="mrs-prolog", tgt="simplemrs", input="dir", select=0,
+                           exportsrc=True, via="api")
+        yield self.mk_case(rng, "mrsprolog", "simplemrs", n=0, src="mrs-prolog", tgt="simplemrs", input="path",
+                           exportsrc=True, via="api")
+        # (9) an exception of encode() that the encode loop does not catch (Indexed MRS target without a SEM-I: TypeError
+        #     at the first item that reaches the encoder): the whole call fails
+        for s0 in ("simplemrs", "mrsjson", "mrx-lines"):
+            for nn in (1, 3):
+                kk += 1
+                yield self.mk_case(rng, norm_name(s0)[0], "indexedmrs", n=nn, dup="none", src=s0,
+                                   tgt=["indexedmrs", "Indexed-MRS-lines"][kk % 2], indexed=False,
+                                   input=("path", "stream", "dir")[kk % 3] if "lines" not in s0 else "stream", select=0,
+                                   enccrash=True, nosemi=True, via="api", lnk=True, properties=True)
+
+        # (11) `semi` given as the path of a SEM-I file (convert loads it), API and command line; ACE output in the
+        #      --tsdb-stdout protocol and as 'ace-lines'; `delphin convert --list`
+        for s0, t0 in (("indexed-mrs", "simplemrs"), ("simplemrs", "indexed-mrs"), ("indexedmrs-lines", "indexedmrs"),
+                       ("simplemrs", "mrx")):
+            for v in ("api", "cli"):
+                kk += 1
+                over = dict(n=2, dup="none", src=s0, tgt=t0, semi_path=True, via=v, indexed=True,
+                            input=("path", "stdin")[kk % 2] if "lines" in s0 else ("path", "dir", "stdin")[kk % 3], select=0)
+                if v == "cli":
+                    over["cli_indent"] = [None, "no", "2"][kk % 3]
+                else:
+                    over["indent"] = [None, 2][kk % 2]
+                yield self.mk_case(rng, norm_name(s0)[0], norm_name(t0)[0], **over)
+        for layout in ([1], [2, 1], [1, 0, 2], ["skip", 3], [0], []):
+            for mode in ("tsdb", "lines"):
+                kk += 1
+                nn = sum(b for b in layout if b != "skip")
+                c = self.mk_case(rng, "ace", ("simplemrs", "mrsjson", "dmrx", "eds")[kk % 4], n=nn, dup="none",
+                                 src="ace-lines" if mode == "lines" else "ACE", ace_mode=mode,
+                                 input=("path", "stream", "stdin", "file")[kk % 4], lnk=True)
+                c["ace_layout"] = list(layout) if len(c["items"]) == nn else ace_layout_default(len(c["items"]))
+                yield c
+        yield {"kind": "cli_list"}
+        # (10) same format on both sides (a pass-through of the source text would be wrong: the options still apply and
+        #      the items are re-serialised), plain -> plain, '-lines' -> '-lines', every input kind
+        for s0 in READABLE:
+            if s0 in ("ace", "indexedmrs") or s0 not in WRITABLE:
+                continue
+            for ln in (False, True):
+                kk += 1
+                sfx = "-lines" if ln else ""
+                yield self.mk_case(rng, s0, s0, n=2 + kk % 2, dup="none", src=SPELLINGS[s0][0] + sfx,
+                                   tgt=SPELLINGS[s0][-1] + sfx, properties=bool(kk % 3 == 0), lnk=bool(kk % 3 == 1),
+                                   input=(("path", "stream", "stdin", "pathobj", "file") if ln else
+                                          ("path", "dir", "stream", "pathobj", "stdin"))[kk % 5], select=0,
+                                   src_indent=[None, 2][kk % 2])
 
     def long_cases(self, rng):
         lrng = __import__("random").Random(20)      # the same long documents in every run
@@ -1357,12 +1682,19 @@ class C20(Check):
             layout = case.get("ace_layout")
             if layout is not None and sum(b for b in layout if b != "skip") != len(objs):
                 layout = None          # (a shrunk case: one reading per sentence)
+            if case.get("ace_mode"):
+                return ace_texts_mode(objs, layout, case["ace_mode"])
             return ace_texts(objs, layout)
         if src_lines:
             singles = [sc.encode(o, properties=True, lnk=True, indent=None) for o in objs]
-            return singles, "".join(s + "\n" for s in singles)
+            lines = list(singles)
+            if case.get("badline") is not None:
+                lines.insert(min(case["badline"], len(lines)), "")       # a blank line: decode('') raises
+            return singles, "".join(s + "\n" for s in lines)
         ind = case.get("src_indent")
         singles = [sc.dumps([o], properties=True, lnk=True, indent=ind) for o in objs]
+        if case.get("baddoc"):
+            return singles, "%%% not a document %%%\n"
         return singles, sc.dumps(objs, properties=True, lnk=True, indent=ind)
 
     def _selected(self, case, n):
@@ -1375,29 +1707,45 @@ class C20(Check):
         objs = self._objs(case)
         d = self._fresh("-ts")
         rows, _ = self._selected(case, len(objs))
+        cells = None
+        if case.get("cells"):
+            # several (or no) structures in one cell: row k holds the document of the next cells[k] items
+            rows = dir_layout(len(case["cells"]))
+            cells, at = [], 0
+            for k in case["cells"]:
+                cells.append(sc.dumps(objs[at:at + k], properties=True, lnk=True, indent=case.get("src_indent")))
+                at += k
         tsdb.initialize_database(d, SCHEMA)
         iids = sorted({i for i, _, _ in rows})
         tsdb.write(d, "item", [(i, "sentence %d" % i) for i in iids], SCHEMA["item"])
         pids = sorted({(p, i) for i, p, _ in rows})
         tsdb.write(d, "parse", [(p, i) for p, i in pids], SCHEMA["parse"])
+        if cells is not None:
+            tsdb.write(d, "result", [(p, r, c) for (i, p, r), c in zip(rows, cells)], SCHEMA["result"])
+            return d
         tsdb.write(d, "result", [(p, r, sc.dumps([o], properties=True, lnk=True, indent=case.get("src_indent")))
                                  for (i, p, r), o in zip(rows, objs)], SCHEMA["result"])
         return d
 
-    def run_convert(self, case):
-        """calls commands.convert on the case's input; returns (text, None) or (None, error enum)"""
+    def run_convert(self, case, spy=None):
+        """calls commands.convert on the case's input; returns (text, None) or (None, error enum); `spy`: a Spy that is
+        active during the call itself (not while the harness writes the input)"""
         src, sl, tgt, tl = self._names(case)
         fh = None
         try:
             with warnings.catch_warnings():
                 warnings.simplefilter("ignore")
                 kind = case["input"]
+                stdin = None
                 if kind == "dir":
                     arg = self._make_dir(case, src)
                 else:
                     _, doc = self._source_texts(case, src, sl)
                     if kind == "stream":
                         arg = io.StringIO(doc)
+                    elif kind == "stdin":
+                        arg = None                   # path=None: sys.stdin
+                        stdin = io.StringIO(doc)
                     else:
                         fn = self._fresh(".txt")
                         with open(fn, "w", encoding="utf-8") as f:
@@ -1409,11 +1757,12 @@ class C20(Check):
                         else:
                             fh = open(fn, encoding="utf-8")
                             arg = fh
-                out = commands.convert(arg, case["src"], case["tgt"], select=SELECTS[case["select"]][0],
-                                       properties=case["properties"], lnk=case["lnk"], indent=case["indent"],
-                                       predicate_modifiers=case["predmod"],
-                                       semi=SEMI if "indexedmrs" in (src, tgt) else None)
+                with (mock.patch.object(sys, "stdin", stdin) if stdin is not None else contextlib.nullcontext()):
+                    with (spy if spy is not None else contextlib.nullcontext()):
+                        out = self._call(case, arg, src, tgt)
                 return out, None
+        except SystemExit:
+            return None, "SystemExit"
         except commands.CommandError:
             return None, "CommandError"
         except AttributeError:
@@ -1428,16 +1777,76 @@ class C20(Check):
             if fh is not None:
                 fh.close()
 
+    def _semi_file(self):
+        """the harness's SEM-I written as a .smi file (convert then loads it itself: `semi` given as a path)"""
+        fn = os.path.join(self.tmp or "/var/tmp", "c20-semi.smi")
+        if self.tmp is None:
+            self.setup()
+            fn = os.path.join(self.tmp, "c20-semi.smi")
+        if not os.path.exists(fn):
+            with open(fn, "w") as f:
+                f.write("variables:\n  u.\n  i < u.\n  p < u.\n  h < p.\n  e < i.\n  x < i & p.\n\n"
+                        "roles:\n  ARG0 : i.\n  ARG1 : u.\n\npredicates:\n"
+                        + "".join("  _p%d_v_1 : ARG0 e%s.\n" % (i, ", ARG1 e" if i else "") for i in range(8)))
+        return fn
+
+    def _call(self, case, arg, src, tgt):
+        """the call itself: through the Python API, or through the command-line front end (`delphin convert`,
+        cli/convert.py: call_convert on parsed arguments, output captured from stdout)"""
+        if case.get("via") == "cli":
+            argv = ([] if arg is None else [str(arg)]) + ["--from=" + case["src"], "--to=" + case["tgt"],
+                                                          "--select=" + SELECTS[case["select"]][0]]
+            if not case["properties"]:
+                argv.append("--no-properties")
+            if not case["lnk"]:
+                argv.append("--no-lnk")
+            if case.get("color"):
+                argv += ["--color", "always"]
+            if case.get("show_status"):
+                argv.append("--show-status")
+            argv.append("--predicate-modifiers" if case["predmod"] else "--no-predicate-modifiers")
+            if case.get("semi_path"):
+                argv.append("--semi=" + self._semi_file())
+            ci = case.get("cli_indent")
+            if ci == "bare":
+                argv.append("--indent")
+            elif ci is not None:
+                argv.append("--indent=" + ci)
+            args = _cli.parser.parse_args(argv)
+            buf = io.StringIO()
+            with contextlib.redirect_stdout(buf):
+                _cli.call_convert(args)
+            return buf.getvalue()
+        return commands.convert(arg, case["src"], case["tgt"], select=SELECTS[case["select"]][0],
+                                properties=case["properties"], lnk=case["lnk"], indent=case["indent"],
+                                color=case.get("color", False), show_status=case.get("show_status", False),
+                                predicate_modifiers=case["predmod"],
+                                semi=(self._semi_file() if case.get("semi_path") else SEMI)
+                                if (("indexedmrs" in (src, tgt) or case.get("semi_path")) and not case.get("nosemi")) else None)
+
     # ---- implementation
     def impl(self, case):
+        if case["kind"] == "cli_list":
+            args = _cli.parser.parse_args(["--list"])
+            args.verbosity = 0
+            buf = io.StringIO()
+            with contextlib.redirect_stdout(buf):
+                _cli.call_convert(args)
+            return {"lines": buf.getvalue().split("\n")}
         if case["kind"] == "integration":
             return integration.block_impl(case)
         if case["kind"] == "plan":
             return self.impl_plan(case)
-        out, err = self.run_convert(case)
+        src, sl, tgt, tl = self._names(case)
+        spy = Spy(real_codec_module(src), real_codec_module(tgt))
+        out, err = self.run_convert(case, spy)
         if err is not None:
-            return {"err": err}
-        return {"doc": cps(out)}
+            return {"err": err, "events": spy.events}
+        if spy.pre is not None:
+            # highlighted: "doc" is the text handed to the highlighter (what the model assembles), "final" what came back
+            pre = spy.pre + ("\n" if case.get("via") == "cli" else "")
+            return {"doc": cps(pre), "final": cps(out), "events": spy.events}
+        return {"doc": cps(out), "events": spy.events}
 
     def impl_plan(self, case):
         sel = {1: "result.mrs", 2: "result.result-id result.mrs", 3: "i-id i-input mrs"}[case["nproj"]]
@@ -1484,6 +1893,10 @@ class C20(Check):
             _, idx = self._selected(case, len(singles))
         cv = naive_converter(REP[src], REP[tgt], case["predmod"])
         kw = {"indent": None if tl else case["indent"], "properties": case["properties"], "lnk": case["lnk"]}
+        if tgt == "eds":
+            kw["show_status"] = case.get("show_status", False)
+        if case.get("nosemi"):
+            tc = real_codec_module(tgt)          # (not the harness's wrapper that supplies the SEM-I)
         res = []
         with warnings.catch_warnings():
             warnings.simplefilter("ignore")
@@ -1515,11 +1928,16 @@ class C20(Check):
                 except (PyDelphinException, KeyError, IndexError):
                     res.append(("encFail",))
                     continue
+                except Exception:
+                    if case.get("enccrash"):
+                        res.append(("encCrash",))       # escapes the encode loop: the whole call fails
+                        continue
+                    raise
                 res.append(("ok", s, x))
         return res
 
     def model_request(self, case):
-        if case["kind"] == "integration":
+        if case["kind"] in ("integration", "cli_list"):
             return None
         if case["kind"] == "plan":
             if norm_name(case["src"]) == ("indexedmrs", False):
@@ -1533,25 +1951,89 @@ class C20(Check):
             return None
         if any(p[0] == "own" for p in per):
             return None
-        outs = [({"ok": cps(p[1])} if p[0] == "ok" else p[0]) for p in per]
-        return {"op": "convert", "src": cps(case["src"]), "tgt": cps(case["tgt"]), "indent": case["indent"] is not None,
-                "nproj": 1, "outcomes": outs}
+        src, sl, tgt, tl = self._names(case)
+
+        def item(p):
+            return {"ok": cps(p[1])} if p[0] == "ok" else p[0]
+        if sl:
+            ls = [item(p) for p in per]
+            if case.get("badline") is not None:
+                ls.insert(min(case["badline"], len(ls)), None)
+            content = {"lines": ls}
+        elif case["input"] == "dir":
+            if case.get("cells"):
+                rows, at = [], 0
+                sc = codec(src)
+                for k in case["cells"]:
+                    grp = [item(p) for p in per[at:at + k]]
+                    at += k
+                    # an empty cell is read back from the profile as None: loads(None) raises
+                    rows.append(None if (k == 0 and sc.dumps([]) == "") else grp)
+                content = {"rows": rows}
+            else:
+                content = {"rows": [[item(p)] for p in per]}
+        else:
+            content = {"doc": {"ok": not case.get("baddoc"), "items": [item(p) for p in per]}}
+        kind = {"path": "file", "pathobj": "file", "file": "stream", "stream": "stream", "stdin": "none",
+                "dir": "dir"}[case["input"]]
+        req = {"op": "session", "src": cps(case["src"]), "tgt": cps(case["tgt"]), "nproj": 1, "kind": kind,
+               "content": content}
+        if case.get("via") == "cli":
+            ci = case.get("cli_indent")
+            req["cli"] = {"no_properties": not case["properties"], "no_lnk": not case["lnk"],
+                          "color_always": bool(case.get("color")),
+                          "indent": None if ci is None else ("bare" if ci == "bare" else cps(ci)),
+                          "show_status": bool(case.get("show_status")), "predmod": case["predmod"],
+                          "semi": bool(case.get("semi_path"))}
+        else:
+            req["opts"] = {"properties": case["properties"], "lnk": case["lnk"], "color": bool(case.get("color")),
+                           "indent": case["indent"], "show_status": bool(case.get("show_status")),
+                           "predmod": case["predmod"],
+                           "semi": ("indexedmrs" in (src, tgt) or bool(case.get("semi_path"))) and not case.get("nosemi")}
+        return req
 
     def model_expected(self, case, impl_res):
         if case["kind"] == "plan":
             return impl_res
         if "err" in impl_res:
-            if case.get("f08") and impl_res["err"] in ("IndexError", "KeyError"):
-                return {"err": "ConverterError"}
-            return impl_res
+            err = impl_res["err"]
+            if case.get("f08") and err in ("IndexError", "KeyError"):
+                err = "ConverterError"
+            return {"err": err, "events": impl_res["events"]}
         per = self.per_item(case)
         src, sl, tgt, tl = self._names(case)
+        if case.get("cells"):
+            heads, at = [], 0
+            for k in case["cells"]:
+                heads.extend(per[at:at + 1] if k else [])
+                at += k
+            per = heads
         okparts = [cps(p[1]) for p in per if p[0] == "ok"]
         readable = tgt in READABLE
-        return {"doc": impl_res["doc"], "split": okparts if readable else None, "items_ok": True}
+        return {"doc": impl_res["doc"], "events": impl_res["events"], "split": okparts if readable else None,
+                "items_ok": True, "highlight": any(e["f"] == "highlight" for e in impl_res["events"])}
+
+    def model_compare(self, case, expected, answer):
+        if case.get("kind") != "convert" or not isinstance(answer, dict):
+            return Check.model_compare(self, case, expected, answer)
+        ans = dict(answer)
+        if "events" in ans:
+            # the order in which the kwargs dictionary was filled is not observable by the callee
+            ans["events"] = [dict(e, kw=sorted(e["kw"], key=lambda kv: kv[0])) for e in ans["events"]]
+        exp = dict(expected)
+        if glue_only(case) and "err" in exp and "err" in ans:
+            # outside the item space: WHICH exception class escapes is the codec's business; where the run stops
+            # (the events) is compared exactly
+            exp["err"] = ans["err"] = "some error"
+        return Check.model_compare(self, case, exp, ans)
 
     # ---- direct oracle
     def oracle(self, case, res):
+        if case.get("kind") == "convert" and glue_only(case):
+            # glue behaviour outside the property's item space (several / no structures in a profile cell, an
+            # unreadable line or document, a '-lines' source given a directory, an encoder crash): what the command
+            # does is compared with the model only
+            return []
         if case.get("kind") == "convert" and case.get("f08"):
             # an item of the class of finding F08 (C04/C05/C07: mutual non-scopal arguments in one scope) inside a
             # document: outside the property's item space; what the command does (the converter's IndexError
@@ -1574,13 +2056,51 @@ class C20(Check):
 
         def fail(clause, detail):
             fails.append({"clause": clause, "detail": detail})
+        if case["kind"] == "cli_list":
+            # `delphin convert --list`: every codec module under its representation with r (has load) / w (has dump)
+            want = {}
+            for n_ in ALL_CODECS:
+                m_ = real_codec_module(n_)
+                want[n_] = (m_.CODEC_INFO["representation"].upper(),
+                            "%s/%s" % ("r" if hasattr(m_, "load") else "-", "w" if hasattr(m_, "dump") else "-"))
+            head, seen = None, {}
+            for ln in res["lines"]:
+                if ln and not ln.startswith("\t"):
+                    head = ln.strip()
+                elif ln.startswith("\t"):
+                    f_ = ln.split("\t")
+                    seen[f_[1].strip()] = (head, f_[2])
+            if seen != want:
+                fail("--list does not show every codec with its representation and read/write capability",
+                     repr(sorted(set(seen.items()) ^ set(want.items()))[:6]))
+            return fails
         if case["kind"] == "plan":
             return self.oracle_plan(case, res, fail) or fails
         src, sl, tgt, tl = self._names(case)
         if "err" in res:
             fail("convert raised on a supported pair with well-formed items", repr((case["src"], case["tgt"], res)))
             return fails
-        out = uncps(res["doc"])
+        raw = uncps(res.get("final", res["doc"]))
+        out = raw
+        if case.get("via") == "cli":
+            if not out.endswith("\n"):
+                fail("the command line does not print the text followed by a newline", repr(out[-40:]))
+            else:
+                out = out[:-1]
+        if case.get("color"):
+            if tgt == "simplemrs":
+                pre = uncps(res["doc"])
+                if case.get("via") == "cli" and pre.endswith("\n"):
+                    pre = pre[:-1]
+                if "final" not in res:
+                    fail("color=True with a simplemrs target did not go through the highlighter", repr(out[:80]))
+                stripped = ANSI.sub("", out)
+                if stripped not in (pre, pre + "\n"):
+                    fail("highlighting changes the text beyond colour codes and one final newline",
+                         repr((stripped[:200], pre[:200])))
+                out = stripped[:-1] if (stripped.endswith("\n") and not pre.endswith("\n")) else stripped
+            elif "\x1b" in out or "final" in res:
+                fail("color=True changes the output of a target other than simplemrs", repr(out[:80]))
         sc, tc = codec(src), codec(tgt)
         per = self.per_item(case)
         if any(p[0] == "own" for p in per):
@@ -1592,6 +2112,8 @@ class C20(Check):
             fail("an item of a plain case could not be encoded on its own", repr([p[0] for p in per]))
         n = len(good)
         kw = {"indent": None if tl else case["indent"], "properties": case["properties"], "lnk": case["lnk"]}
+        if tgt == "eds":
+            kw["show_status"] = case.get("show_status", False)
         with warnings.catch_warnings():
             warnings.simplefilter("ignore")
             # (a) the text read back by the target codec
@@ -1601,6 +2123,10 @@ class C20(Check):
                     fail("'-lines' output does not have exactly one line per item", repr((n, len(lines))))
                 elif hasattr(tc, "decode"):
                     for i, (ln, p) in enumerate(zip(lines, good)):
+                        if ln.rstrip("\n") != p[1]:
+                            fail("a line of '-lines' output is not the text that encoding the item on its own gives",
+                                 repr((i, ln[:200], p[1][:200])))
+                            break
                         try:
                             got = view(tc.decode(ln))
                         except Exception as e:
@@ -1652,6 +2178,16 @@ class C20(Check):
                 marker = {"mrsprolog": "psoa(", "dmrstikz": "\\begin{dependency}"}.get(tgt)
                 if ok and marker and out.count(marker) != n:
                     fail("export document does not contain exactly one block per item", repr((tgt, n, out.count(marker))))
+            # (a') the blocks are the items' own encodings, verbatim and in order
+            if not tl:
+                pos = 0
+                for i, p in enumerate(good):
+                    at = out.find(p[1], pos)
+                    if at < 0:
+                        fail("the document does not hold the item's own encoding verbatim (in order)",
+                             repr((i, tgt, p[1][:120])))
+                        break
+                    pos = at + len(p[1])
             # (b) same text as the codec's own list serializer, up to whitespace
             if not tl and hasattr(tc, "dumps"):
                 try:
@@ -1716,9 +2252,9 @@ class C20(Check):
             # (d) purity: the same input converted again -- directly, and after a conversion with other
             #     options (other indent, other target) in the same process -- gives the identical text
             out2, err2 = self.run_convert(case)
-            if err2 is not None or out2 != out:
+            if err2 is not None or out2 != raw:
                 fail("converting the same input twice in one process gives different text",
-                     repr((src, tgt, err2, (out2 or "")[:200], out[:200])))
+                     repr((src, tgt, err2, (out2 or "")[:200], raw[:200])))
             if case.get("long"):
                 return fails
             other = dict(case)
@@ -1726,11 +2262,16 @@ class C20(Check):
             alts = [x for x in TARGETS if supported(src, x) and x != tgt]
             other["tgt"] = alts[(len(out) + len(case["items"])) % len(alts)]
             other["properties"] = not case["properties"]
+            other["lnk"] = not case["lnk"]
+            other["show_status"] = not case.get("show_status", False)
+            other["predmod"] = not case["predmod"]
+            if other.get("via") == "cli":
+                other["cli_indent"] = "bare" if other["indent"] is None else "2"
             self.run_convert(other)
             out3, err3 = self.run_convert(case)
-            if err3 is not None or out3 != out:
+            if err3 is not None or out3 != raw:
                 fail("converting the same input again after a conversion with other options gives different text",
-                     repr((src, tgt, other["tgt"], err3, (out3 or "")[:200], out[:200])))
+                     repr((src, tgt, other["tgt"], err3, (out3 or "")[:200], raw[:200])))
         return fails
 
     def oracle_plan(self, case, res, fail):
@@ -1776,6 +2317,8 @@ class C20(Check):
         return None
 
     def nontrivial_key(self, case, res):
+        if case["kind"] == "cli_list":
+            return None
         if case["kind"] == "convert" and not case["items"]:
             return None
         return json.dumps(case, sort_keys=True)
@@ -1784,6 +2327,8 @@ class C20(Check):
         def inc(k):
             counters[k] = counters.get(k, 0) + 1
         inc("kind:" + case["kind"])
+        if case["kind"] == "cli_list":
+            return
         if case["kind"] == "integration":
             return integration.block_stats(res, counters)
         if case["kind"] == "plan":
@@ -1833,6 +2378,30 @@ class C20(Check):
             inc("has_identical_items")
             inc("has_identical_items:" + case["input"] + ("+lines-source" if sl else ""))
         inc("props:%s lnk:%s predmod:%s" % (case["properties"], case["lnk"], case["predmod"]))
+        if any(it.get("icons") for it in case["items"]):
+            inc("items with ICONS")
+        if case.get("semi_path"):
+            inc("semi given as a path")
+        if case.get("ace_mode"):
+            inc("ace:" + case["ace_mode"])
+        inc("via:" + case.get("via", "api"))
+        if case.get("via") == "cli":
+            inc("cli --indent:" + ("absent" if case.get("cli_indent") is None else case["cli_indent"]))
+        inc("color:%s%s" % (bool(case.get("color")), "+highlighted" if res and "final" in res else ""))
+        if t == "eds":
+            inc("eds target show_status:%s" % bool(case.get("show_status")))
+        for f in GLUE_FLAGS:
+            if case.get(f) is not None and case.get(f) is not False:
+                inc("glue-only:" + f + (":" + ("err " + res["err"] if res and "err" in res else "ok")))
+        if res and "events" in res:
+            fs = [e["f"] for e in res["events"]]
+            inc("calls:" + "+".join(sorted(set(fs))) if fs else "calls:none")
+            if "decode" in fs and "encode" in fs and fs.index("encode") < len(fs) - 1 - fs[::-1].index("decode"):
+                inc("calls:decode after an encode (streaming)")
+            if any(e["f"] == "encode" and any(k == "semi" for k, _ in e["kw"]) for e in res["events"]):
+                inc("calls:encode with semi")
+            if any(e["f"] in ("load", "loads", "decode") and e["kw"] for e in res["events"]):
+                inc("calls:reader with semi")
         if case["input"] == "dir":
             inc("select:" + SELECTS[case["select"]][0])
         if case.get("isolation"):
